@@ -100,7 +100,7 @@ Lemma new_copy_hold T X : Hold T X new_copy.
 Proof. intros k v w H. discriminate. Qed.
 Lemma new_copy_compl T X : t_wf T -> Compl T X new_copy.
 Proof. intros Hwf k w (Hw & _) Hv. destruct (twf_range T Hwf X w Hw). cbn in Hv. lia. Qed.
-Lemma reset_hold T X g : Hold T X (reset_node g).
+Lemma reset_hold T X h g : Hold T X (reset_node h g).
 Proof. intros k v w H. discriminate. Qed.
 
 (* heartbeat changes are irrelevant *)
@@ -298,10 +298,10 @@ Proof.
     { unfold check_delta_status in Hst. destruct (c_max c <? d_from nd); [discriminate|].
       destruct (negb _); [|destruct (c_max c <? d_max nd); discriminate].
       destruct (d_from nd =? 0) eqn:E; [apply N.eqb_eq in E; exact E|discriminate]. }
-    destruct (fold_left (apply_kv now (c_max (reset_node (d_gc nd)))) (d_kvs nd) (reset_node (d_gc nd), [])) as [c1 evs1] eqn:Hf.
+    destruct (fold_left (apply_kv now (c_max (reset_node (c_hb c) (d_gc nd)))) (d_kvs nd) (reset_node (c_hb c) (d_gc nd), [])) as [c1 evs1] eqn:Hf.
     destruct (d_max nd <? c_max c1); [discriminate|]. injection Hrun as <- _ _.
-    pose proof (fold_apply_kv_get now 0 (d_kvs nd) (reset_node (d_gc nd)) []) as Hget. cbn [reset_node c_max] in Hf.
-    assert (Hb0 : forall m v', In m (d_kvs nd) -> kget (m_key m) (c_kvs (reset_node (d_gc nd))) = Some v' -> v_ver v' <= 0)
+    pose proof (fold_apply_kv_get now 0 (d_kvs nd) (reset_node (c_hb c) (d_gc nd)) []) as Hget. cbn [reset_node c_max] in Hf.
+    assert (Hb0 : forall m v', In m (d_kvs nd) -> kget (m_key m) (c_kvs (reset_node (c_hb c) (d_gc nd))) = Some v' -> v_ver v' <= 0)
       by (intros m v' _ Hk; discriminate).
     assert (Hg : forall k, kget k (c_kvs c1) = match find_key k (d_kvs nd) with
                    | Some m => if applicable 0 (d_gc nd) m then Some (new_vv now m) else None
